@@ -232,7 +232,7 @@ package ast
 //@ macro func lowerR(c Ref, h int) bool { return c != nil ==> $height[c] < h }
 // the same for atoms: the rank strictly decreases to the inner atom, the variable, the call and the selector
 //@ macro func atomWF() bool { return forall a *ExpressionAtom {a.Evaluated} :: a != nil ==> lowerR(a.ExpressionAtom, $height[a]) && lowerR(a.Variable, $height[a]) && lowerR(a.FunctionCall, $height[a]) && lowerR(a.ArrayMapSelector, $height[a]) }
-//@ macro func varWF() bool { return forall v *Variable {v.ValueNode} :: v != nil ==> lowerR(v.Variable, $height[v]) && lowerR(v.ArrayMapSelector, $height[v]) }
+//@ macro func varWF() bool { return forall v *Variable {v.Variable} :: v != nil ==> lowerR(v.Variable, $height[v]) && lowerR(v.ArrayMapSelector, $height[v]) }
 //@ macro func treeWF() bool { return exprWF() && atomWF() && varWF() }
 //@ macro func atomsAboveUntouched(n Ref) bool { return forall a *ExpressionAtom {a.Evaluated} :: $height[a] > $height[n] ==> a.Evaluated == old(a.Evaluated) && a.Value == old(a.Value) }
 //@ macro func aboveUntouched(h int) bool { return (forall x *Expression :: $height[x] > h ==> x.Evaluated == old(x.Evaluated) && x.Value == old(x.Value)) }
@@ -1451,12 +1451,25 @@ package ast
 //@   ensures err == nil ==> fresh(c) && !$blue[c]
 //@   ensures TableInv(cloneTable) && recordsKept(cloneTable) && (forall p Ref :: old(allocated(p)) ==> allocated(p))
 
-// ASSUMED (extern): KnowledgeBase.Clone ranges over the rule map (loop + allocation-relative frames are beyond what the
-// generator discharges robustly); stated for the record, not checked
-//@ extern func (e *KnowledgeBase) Clone(cloneTable) (c, err)
-//@   modifies @clonefx, fresh KnowledgeBase.*, fresh map[string]*RuleEntry
-//@   ensures err == nil ==> fresh(c) && !$blue[c] && c.Name == e.Name && c.Version == e.Version
-//@   ensures err == nil ==> (forall k string :: has(c.RuleEntries, k) == has(e.RuleEntries, k)) && (forall k string :: has(e.RuleEntries, k) ==> c.RuleEntries[k] == imageOf(cloneTable, e.RuleEntries[k].AstID))
+// KnowledgeBase.Clone: every rule entry of the blueprint is filed in the instance under the same key, as the clone table's
+// image of that entry; the blueprint's own rule map (and every other existing rule map) is untouched.
+//@ macro func entriesAlloc(e *KnowledgeBase) bool { return forall k string :: has(e.RuleEntries, k) ==> e.RuleEntries[k] != nil && allocated(e.RuleEntries[k]) }
+//@ macro func oldMapsKept() bool { return (forall m map[string]*RuleEntry, k string :: (m == nil || old(allocated(m))) ==> has(m, k) == old(has(m, k)) && m[k] == old(m[k])) && (forall m map[string]*RuleEntry :: (m == nil || old(allocated(m))) ==> len(m) == old(len(m))) }
+//@ func (e *KnowledgeBase) Clone(cloneTable) (c, err)
+//@   serves C09 C16
+//@   opt alloc=1
+//@   opt freshslices=1
+//@   requires e != nil && TableInv(cloneTable)
+//@   requires e.RuleEntries != nil ==> allocated(e.RuleEntries)
+//@   modifies @clonefx, fresh KnowledgeBase.*, fresh map[string]*RuleEntry, fresh WorkingMemory.*, fresh map[string]*Expression, fresh map[string]*ExpressionAtom, fresh map[string]*Variable, fresh map[*Variable][]*Expression, fresh map[*Variable][]*ExpressionAtom
+//@   invariant@1 shape: fresh(clone) && fresh(clone.RuleEntries) && clone.Name == e.Name && clone.Version == e.Version && e.RuleEntries == old(e.RuleEntries)
+//@   invariant@1 oldmaps: oldMapsKept()
+//@   invariant@1 done: old(entriesAlloc(e)) ==> (forall j int {$keys[j]} :: 0 <= j && j < $i ==> has(clone.RuleEntries, $keys[j]) && has(cloneTable.Records, e.RuleEntries[$keys[j]].AstID) && clone.RuleEntries[$keys[j]] == imageOf(cloneTable, e.RuleEntries[$keys[j]].AstID))
+//@   invariant@1 nothingelse: forall k string :: has(clone.RuleEntries, k) ==> has(e.RuleEntries, k)
+//@   invariant@1 table: TableInv(cloneTable) && recordsKept(cloneTable) && (forall p Ref :: old(allocated(p)) ==> allocated(p))
+//@   ensures[C09] fresh: err == nil ==> fresh(c) && !$blue[c] && c.Name == e.Name && c.Version == e.Version
+//@   ensures[C09,C16] entries: err == nil && old(entriesAlloc(e)) && e.RuleEntries != nil ==> (forall k string :: has(c.RuleEntries, k) == has(e.RuleEntries, k)) && (forall k string :: has(e.RuleEntries, k) ==> c.RuleEntries[k] == imageOf(cloneTable, e.RuleEntries[k].AstID))
+//@   ensures[C09] blueprintmapkept: oldMapsKept()
 
 // =========================================================================================================
 // C07: nodes are shared exactly when their snapshots are equal (Add*, above), so every snapshot must be injective up to
